@@ -23,6 +23,11 @@ def mk_pel(rng, eid, plid=None, bmc=None, ref=None, sev=0x40, flags=0x2000, crea
     if extra_secs:
         secs += [genpel.gen_eh(rng), genpel.gen_ud(rng, creator=creator)][: rng.randrange(0, 3)]
     r = rng.random()
+    if extra_secs and rng.random() < .15:
+        # a long log: ten to twenty sections
+        for _ in range(rng.randrange(8, 18)):
+            secs.append(rng.choice([genpel.gen_other(rng, rng.choice(['XX', 'MI', 'EI'])), genpel.gen_ud(rng, creator=creator),
+                                    genpel.gen_mt(rng)]))
     if extra_secs and rng.random() < .3 and creator == 'O':
         secs.append(genpel.gen_hostile_json_ud(rng))          # text that output code trips over
     if extra_secs and rng.random() < .15 and creator == 'O':
@@ -65,7 +70,7 @@ def failing_plugin_ud(rng):
     return s
 
 
-JUNK_KINDS = ['danglingLink', 'danglingLink', 'pluginFailsThenCut', 'pluginFailsThenCut', 'pceSizeMore', 'calloutFlip', 'calloutFlip', 'empty', 'badPHid', 'badUHid', 'truncInHeaders', 'truncAfterHeaders', 'truncAfterSRC',
+JUNK_KINDS = ['tinySectionLen', 'tinySectionLen', 'danglingLink', 'danglingLink', 'pluginFailsThenCut', 'pluginFailsThenCut', 'pceSizeMore', 'calloutFlip', 'calloutFlip', 'empty', 'badPHid', 'badUHid', 'truncInHeaders', 'truncAfterHeaders', 'truncAfterSRC',
               'corruptLater', 'random', 'pceSize', 'badUtf8Creator', 'badUtf8Src', 'hugeWordCount', 'noPrimarySrc', 'countTwo', 'byteflip', 'byteflip', 'byteflip']
 
 
@@ -112,6 +117,22 @@ def make_junk(rng, kind, base_pel):
         data[27] = 2                        # the section count says there is nothing after the headers
     elif kind == 'pceSize':
         pass
+    elif kind == 'tinySectionLen':
+        # a section whose length field says 8 or less: its header fits, its body has a length of zero or below
+        # (user data or an unknown section type, in front of the SRC or behind it)
+        import copy
+        pel = copy.deepcopy(base_pel)
+        extra = [genpel.gen_ud(rng, creator='O'), genpel.gen_other(rng, rng.choice(['XX', 'ZQ', 'MI']))]
+        rng.shuffle(extra)
+        pos = rng.choice([0, 0, len(pel['secs'])])
+        pel['secs'] = pel['secs'][:pos] + extra[:rng.randrange(1, 3)] + pel['secs'][pos:]
+        data = bytearray(encode.encode(pel))
+        off = 72
+        for k, s in enumerate(pel['secs']):
+            if pos <= k < pos + 2 and s['kind'] != 'SRC':
+                data[off + 2:off + 4] = bytes([0, rng.choice([8, 0, 4, 7, 1])])
+                break
+            off += len(encode.section_bytes(s))
     elif kind == 'pluginFailsThenCut':
         # sections whose parser module raises (in front of the SRC and behind it), then the file ends early
         import copy
